@@ -201,7 +201,7 @@ func (w *World) staticTypeFacts(t types.Type, v Term) []Term {
 			out = append(out, w.staticTypeFacts(fi.Type, w.Sorts.FieldOf(v, i))...)
 		}
 	case *types.Interface:
-		out = append(out, Ge(ITag(v), IntLit(0)))
+		out = append(out, Ge(ITag(v), IntLit(0)), Implies(Eq(ITag(v), IntLit(0)), Eq(IVal(v), IntLit(0))))
 	}
 	return out
 }
